@@ -478,6 +478,14 @@ impl WhenCalledBuilder<'_> {
     /// `times``: // Optional. How many times the function should be called. If the value is not satisfied at the end of the test, the test will fail.
     pub fn will_execute(self, fake_pair: (FuncPtr, CallCountVerifier)) {
         let (fake_func, verifier) = fake_pair;
+
+        // The counter is a static created by the `fake!` expansion and therefore shared by every
+        // evaluation of that expansion (a set-up helper, a loop, an earlier test in the same
+        // process). Each installation counts its own calls only.
+        if let CallCountVerifier::WithCount { counter, .. } = &verifier {
+            counter.store(0, std::sync::atomic::Ordering::SeqCst);
+        }
+
         self.lib.verifiers.push(verifier);
         self.will_execute_raw(fake_func);
     }
